@@ -248,3 +248,24 @@ pub fn big_lengths(lo: u64, hi: u64) -> Vec<u64> {
     v.dedup();
     v
 }
+
+/// All primes p in (lo, hi] whose p-1 has only the prime factors 2, 3, 5, 7, 11: the lengths every planner computes with
+/// Rader's algorithm over a fast inner FFT (the AVX planner's RadersAvx2 index arithmetic changes regime at 2^16).
+pub fn rader_primes(lo: u64, hi: u64) -> Vec<u64> {
+    let mut smooth = vec![1u64];
+    for p in [2u64, 3, 5, 7, 11] {
+        let mut next = Vec::new();
+        for &s in &smooth {
+            let mut x = s;
+            while x < hi {
+                next.push(x);
+                x *= p;
+            }
+        }
+        smooth = next;
+    }
+    let mut v: Vec<u64> = smooth.into_iter().map(|s| s + 1).filter(|&p| p > lo && p <= hi && is_prime_u64(p)).collect();
+    v.sort();
+    v.dedup();
+    v
+}
